@@ -322,7 +322,13 @@ def cli_deps(ctx):
     """the header exists for every k the CLI admits and is joined with the preset's delimiter: option range and setters"""
     from . import c15
     c15.ranges_rule(dep(ctx, "C03", "C15"), structs=("OligoCommand",))
-    c15.setters_rule(dep(ctx, "C03", "C15"), ("Oligo",))
+    c15.cli_arm_dep(ctx, "C03", ("Oligo",), presets=True)      # -H reaches set_header, -p reaches set_delim with its delimiter
+    from . import c17
+    for path_, who_ in (("composition::oligo::OligoComputer::vectorise_mmap", "oligo::vectorise_mmap"),
+                        ("composition::oligo::OligoComputer::vectorise_batch", "oligo::vectorise_batch")):
+        fw_ = ctx.view(path_)
+        if fw_ is not None:
+            rule_output_always_created(dep(ctx, "C03", "C17"), "C17.W", fw_, who_)
 
 
 def header_line_rule(ctx):
